@@ -43,7 +43,7 @@ def judge (c : Case) : Verdict :=
   let tags := c.tags ++ tagIf uniq "uniq" ++ tagIf c.t.rooted "rooted" ++ tagIf (c.t.kids.length == 1) "roottip" ++
     tagIf (c.t.kids.length > 3) "multiroot" ++ tagIf (!c.t.binary) "multif" ++
     tagIf (c.t.edges.any (·.len == 0)) "zerolen" ++ tagIf (c.t.edges.any (·.len == NIL)) "nolen" ++
-    tagIf c.small "small" ++ tagIf (lensOK c.t) "hyp-lensok" ++ tagIf (supsOK c.t) "hyp-supsok" ++ tagIf (keysOK c.t) "hyp-keysok" ++ tagIf (allLens c.t) "hyp-alllens" ++ ["model-" ++ c.model.cls]
+    tagIf c.small "small" ++ tagIf (lensOK c.t) "hyp-lensok" ++ tagIf (supsOK c.t) "hyp-supsok" ++ tagIf (keysOK c.t) "hyp-keysok" ++ tagIf (allLens c.t) "hyp-alllens" ++ tagIf (branchesDistinct c.t) "hyp-branchesdistinct" ++ ["model-" ++ c.model.cls]
   if !uniq then ⟨.pass, "skip-dupnames" :: tags, ""⟩ else
   if startsWith c.outcome "malformed" then ⟨.oracle, tags, "heap malformed after the operation: " ++ c.outcome⟩ else
   if startsWith c.outcome "panic" then
